@@ -1402,6 +1402,42 @@ pub fn gen_try_decidable(rng: &mut Rng) -> Program {
     p
 }
 
+/// Dropping a handle is a release, and an acquire only for the drop that brings the count to zero
+/// (std: `fetch_sub(1, Release)`, then `fence(Acquire)` in the last one): a thread publishes data,
+/// drops its handle and raises a relaxed flag; a second thread that saw the flag drops a handle
+/// that is NOT the last one (main keeps its own until both are joined) and then looks at the data.
+/// Nothing orders the two: the cell access is a race that must be reported, the relaxed load may
+/// still return the initial value.
+pub fn gen_arc_drop_order(rng: &mut Rng) -> Program {
+    let mut vs = ValueSrc::new();
+    let mut p = Program { atomics: vec![0, 0], n_cell: 1, arcs: vec![vec![1, 2]], ..Default::default() };
+    let use_cell = rng.chance(1, 2);
+    let flag = vs.constant();
+    // (a release/acquire flag orders everything: the control variant)
+    let synced = rng.chance(1, 4);
+    let (so, lo) = if synced { (MO::Rel, MO::Acq) } else { (MO::Rlx, MO::Rlx) };
+    let mut t1 = vec![if use_cell { Op::CWrite { c: 0, v: vs.constant() } } else { Op::Store { a: 1, v: vs.constant(), o: MO::Rlx } }];
+    if rng.chance(1, 3) {
+        t1.push(Op::ArcClone { r: 0 });
+        t1.push(Op::ArcDrop { r: 0 });
+    }
+    t1.push(Op::ArcDrop { r: 0 });
+    t1.push(Op::Store { a: 0, v: flag, o: so });
+    let mut t2 = vec![Op::Await { a: 0, o: lo, v: flag }];
+    if rng.chance(1, 2) {
+        t2.push(Op::ArcClone { r: 0 });
+    }
+    t2.push(Op::ArcDrop { r: 0 });
+    t2.push(if use_cell { Op::CRead { c: 0 } } else { Op::Load { a: 1, o: MO::Rlx } });
+    let (a, b) = if rng.chance(1, 2) { (t1, t2) } else { (t2, t1) };
+    let mut t0 = vec![Op::Spawn { t: 1 }, Op::Spawn { t: 2 }, Op::Join { t: 1 }, Op::Join { t: 2 }, Op::ArcDrop { r: 0 }];
+    if rng.chance(1, 2) {
+        t0.push(if use_cell { Op::CRead { c: 0 } } else { Op::Load { a: 1, o: MO::Rlx } });
+    }
+    p.threads = vec![t0, a, b];
+    p
+}
+
 /// park / unpark as message passing: the parked thread looks at data afterwards; one unparker
 /// publishes before it unparks, another one unparks without publishing (so that returning from
 /// `park` must synchronise with exactly the unpark that woke it, in every iteration anew).
